@@ -4,6 +4,7 @@
     (Idp/Router.v: routes_from_source, advertised_from_source, sources_ok), over the Endpoint functions go2v generates from
     endpoint.go.  NOT modelled: gorilla/mux beyond exact first-match on the path (path cleaning, templates with braces),
     the XML of the document (C18), the cryptographic use of the certificate (C04). *)
+From Saml Require Import Xml.SchemaTypes Xml.Schema Gen.Schema Xml.SamlSpec.
 From Saml Require Import Base.Bytes Idp.FactTypes Gen.Facts Gen.Pure Idp.Sso Idp.Router Proofs.SsoProofs Proofs.SsoAccept.
 From Coq Require Import List. Import ListNotations.
 
@@ -61,9 +62,14 @@ Qed.
 Example C11_default_distinct : NoDup (map fst (routes (effective {| k_metadata := None; k_cert := None; k_callback := None; k_sso := None; k_slo := None; k_attr := None |}))).
 Proof. repeat constructor; cbn; intuition discriminate. Qed.
 
+(** the struct tags of the current source agree with the SAML schemas where the handlers rely on them: entityID, WantAuthnRequestsSigned, the endpoint Binding / Location / index / isDefault attributes, KeyDescriptor use and the service elements of the metadata structs are the attributes / elements of that name in the metadata document *)
+Theorem C11_schema : forallb (conforms xml_schema) saml_spec = true.
+Proof. exact saml_spec_conforms. Qed.
+
 Print Assumptions C11_from_source.
 Print Assumptions C11_entity_id.
 Print Assumptions C11_routes.
 Print Assumptions C11_external.
 Print Assumptions C11_first_match.
 Print Assumptions C11_want_signed.
+Print Assumptions C11_schema.
